@@ -621,7 +621,8 @@ def evaluate(part, m, d, sp, Meng, acc0, vel_ref, ctrl, act, h, clamp, mask, tcl
         if np.max(err) > TOL:
             k = int(np.argmax(err))
             i = int(np.nonzero(sp.stateful)[0][k])
-            _viol(part, "act_dot differs from the documented activation dynamics [dyn=%s]" % (acts[i]["cfg"][2],),
+            c_ = acts[i]["cfg"]          # general actuators: (gain, bias, dyn); shortcuts: (tag, attributes)
+            _viol(part, "act_dot differs from the documented activation dynamics [dyn=%s]" % (c_[2] if len(c_) > 2 else c_[0],),
                   "%s actuator %d cfg=%s ctrl=%g act=%g: engine %r documented %r" % (label, i, acts[i]["cfg"], ctrl[i], act[k], float(ad[k]), float(exp[k])),
                   dict(rp, actuator=i, cfg=acts[i]["cfg"]))
     # actuator_force (pre joint clamp); tendon-level clamp only when the tendon is limited
